@@ -162,7 +162,11 @@ def funnel(sx, kind):
                                          InvalidCredentialsError, ArgumentError, RequestTooLongError])
         takes_object = fcls in (ResourceNotFoundError, ResourceAlreadyExistsError, ValidationError)
         arg = sx.choose('fault_arg', BUILTIN_ARGS if takes_object else BUILTIN_ARGS[:1])
-        BEHAVE.update(kind='fault', cls=fcls, args=(arg,))
+        params = None
+        if fcls is InvalidCredentialsError and sx.choose('with_params', [1, 0]):
+            # the 401 error takes an optional dict that becomes the fault detail
+            params = {'realm': 'users', 'hint': {'retry': 0}}
+        BEHAVE.update(kind='fault', cls=fcls, args=(arg,) if params is None else (arg, params))
     elif kind == 'exception':
         secret = sx.text('secret', 6, alphabet='sekrit0123')
         BEHAVE.update(kind='exc', cls=sx.choose('exc_class', EXC_CLASSES), secret=secret)
@@ -186,6 +190,8 @@ def funnel(sx, kind):
               isinstance(d.get('faultstring'), str)]
         if fcls in (ResourceNotFoundError, ResourceAlreadyExistsError) :
             ok.append(repr(arg) in d.get('faultstring', '') or str(arg) in d.get('faultstring', ''))
+        if params is not None:
+            ok.append(d.get('detail') == params)
         return sx.And(*ok)
     if kind.startswith('fault'):
         ok = [entered == 1, sx.eq(err.faultcode, code), sx.eq(err.faultstring, msg),
